@@ -16,7 +16,7 @@ REQUIRED_MONITORS = {"refused_upload": 10, "request_body": 200, "response_body":
 
 LENGTHS = [0, 1, 15, 16, 17, 31, 32, 33, 63, 64, 65, 127, 128, 129, 255, 256, 257, 511, 512, 513, 1023, 1024, 1025, 1124, 1125, 2047, 2048, 2049, 5000, 20000]
 ETAG_MIS = ("etag-changes", "etag-vanishes", "etag-appears")
-MISBEHAVIOURS = ["b1-wrong-num", "b1-wrong-num-final", "b1-more-on-final", "b1-continue-on-final", "b2-wrong-num", "b2-short-with-more", "etag-changes", "etag-vanishes", "etag-appears"]
+MISBEHAVIOURS = ["b1-wrong-num", "b1-wrong-num-final", "b1-more-on-final", "b1-continue-on-final", "b2-wrong-num", "b2-short-with-more", "b2-repeat-prev", "b2-restart-0", "etag-changes", "etag-vanishes", "etag-appears"]
 
 
 def plan(tier, seed):
@@ -54,7 +54,7 @@ def gen(r, k, tier):
         mis = r.choice(MISBEHAVIOURS)
         loss = None
     mis_at = r.randrange(0, 3)
-    if mis in ETAG_MIS:
+    if mis in ETAG_MIS or mis in ("b2-repeat-prev", "b2-restart-0"):
         mis_at = r.randrange(1, 4)  # a change from the very first block on is a consistent representation, not a change
     fail1 = None
     hint = False
@@ -236,6 +236,8 @@ def misbehaviour_manifested(p, srv, req_body, rep_body):
         if mis == "b2-short-with-more":
             return len(srv.served) > at and srv.served[at][0] + srv.served[at][1] < len(rep_body) and any(l not in (16, 32, 64, 128, 256, 512, 1024) for _, l in srv.served[at : at + 1])
         return len(srv.served) > at
+    if mis in ("b2-repeat-prev", "b2-restart-0"):
+        return getattr(srv, "repeated_earlier", 0) > 0
     if mis in ETAG_MIS:
         # the representation changed between the first block and a later one
         return at >= 1 and len(srv.served) > at and srv.served[0][0] == 0
